@@ -52,3 +52,13 @@ EDITS += [
     {'id': 'swap-recurses-unswapped', 'expect': 'fire', 'rule': 'C14.O3', 'file': 'spowtd/spline.py', 'old': '            return -self.integrate(b, a)', 'new': '            return -self.integrate(a, b)'},
     {'id': 'clamp-to-foreign-bounds', 'expect': 'fire', 'rule': 'C14.O2', 'file': 'spowtd/spline.py', 'old': 'np.maximum(x, self._tck[0][0]), self._tck[0][-1]', 'new': 'np.maximum(x, self._tck[0][1]), self._tck[0][-1]'},
 ]
+
+# round 7: value and integral of one function (C14.O4)
+EDITS += [
+    {'id': 'value-floored-integral-raw', 'expect': 'fire', 'rule': 'C14.O4', 'file': 'spowtd/specific_yield.py',
+     'old': '        return self._spline(water_level_mm)', 'new': '        return np.maximum(self._spline(water_level_mm), 0.0)'},
+    {'id': 'value-scaled-integral-raw', 'expect': 'fire', 'rule': 'C14.O4', 'file': 'spowtd/specific_yield.py',
+     'old': '        return self._spline(water_level_mm)', 'new': '        return 0.01 * self._spline(water_level_mm)'},
+    {'id': 'value-as-array', 'expect': 'silent', 'file': 'spowtd/specific_yield.py',
+     'old': '        return self._spline(water_level_mm)', 'new': '        return np.asarray(self._spline(water_level_mm))'},
+]
